@@ -54,6 +54,33 @@ theorem frameOfOps_parses (E : Env) (ok : EnvOK E) (hashOf : Array UInt8 → Boo
     rw [← h1]
     exact frame_parses E ok hashOf p hb hcs64 hd32 blocks (fun b hbm => ⟨List.length_pos_iff.mp (hall b hbm).1, (hall b hbm).2⟩) (by rw [h1]; exact hcs)
 
+/-- the same on a compression context with a past: the LZ4 state the earlier frames left is ANY state satisfying `FastR.J` -/
+theorem frameOfOpsFrom_parses (E : Env) (ok : EnvOK E) (hashOf : Array UInt8 → Bool → Nat → Nat) (p : Prefs) (hb : 4 ≤ p.bsid ∧ p.bsid ≤ 7)
+    (hcs64 : p.contentSize < 256 ^ 8) (hd32 : p.dictID < 256 ^ 4) (S0 : FastR.RState) (hJ0 : FastR.J S0) (ops : List FrameC.Op)
+    (hops : ∀ op ∈ ops, ∀ b a, op ≠ .begin b a) (f : Bytes) (h : frameOfOpsFrom E hashOf p S0 ops = some f)
+    (hcs : p.contentSize = 0 ∨ p.contentSize = (FrameC.fed ops).length) :
+    ∃ F, pFrame E [] F f = .ok (FrameC.fed ops, []) := by
+  unfold frameOfOpsFrom at h
+  rw [List.cons_append, run_begin] at h
+  cases hr : FrameC.run (LZ4V.C03.afterBegin (blockSizeOf p.bsid) p.autoFlush) (ops ++ [FrameC.Op.finish]) with
+  | error e => rw [hr] at h; cases h
+  | ok v =>
+    obtain ⟨c', blocks⟩ := v
+    rw [hr] at h
+    simp only [Option.some.injEq] at h
+    subst h
+    have hbs := (blockSizeOf_le p.bsid hb).1
+    obtain ⟨h1, _, _⟩ := LZ4V.C03.finished_frame_holds_input (blockSizeOf p.bsid) p.autoFlush hbs ops c' blocks hops hr
+    have hops' : ∀ op ∈ ops ++ [FrameC.Op.finish], ∀ b a, op ≠ .begin b a := by
+      intro op hop b a
+      rcases List.mem_append.mp hop with h0 | h0
+      · exact hops op h0 b a
+      · simp only [List.mem_singleton] at h0; subst h0; intro hc; cases hc
+    have hall := LZ4V.C07.block_sizes_conform (blockSizeOf p.bsid) p.autoFlush hbs (ops ++ [FrameC.Op.finish]) c' blocks hops' hr
+    refine ⟨blocks.length + 1, ?_⟩
+    rw [← h1]
+    exact frameFrom_parses E ok hashOf p hb hcs64 hd32 S0 hJ0 blocks (fun b hbm => ⟨List.length_pos_iff.mp (hall b hbm).1, (hall b hbm).2⟩) (by rw [h1]; exact hcs)
+
 /-- … hence, as a STREAM (what `lz4 -d` consumes), it decodes to what was fed -/
 theorem frameOfOps_stream (E : Env) (ok : EnvOK E) (hashOf : Array UInt8 → Bool → Nat → Nat) (p : Prefs) (hb : 4 ≤ p.bsid ∧ p.bsid ≤ 7)
     (hcs64 : p.contentSize < 256 ^ 8) (hd32 : p.dictID < 256 ^ 4) (ops : List FrameC.Op)
